@@ -171,6 +171,12 @@ def run_history(ctx, program, history, modes, tag, nocache_graph=False):
                 for mk in makers:
                     ctxs.append(mk())
                     ctxs[-1].__enter__()
+                    if (step + len(makers)) % 2 == 0:
+                        # a helper that used the very same context object inside the caller's block and has returned
+                        # (re-entering a runtime object is supported): the caller's block is still open afterwards
+                        ctxs[-1].__enter__()
+                        ctxs[-1].__exit__(None, None, None)
+                        ctx.count("reentered_switch_contexts")
                 with Tap(on_event=on_event, keep=False):
                     got = observe(G.root.evaluate, o2)
             finally:
